@@ -637,3 +637,29 @@ def octet_length_lint(ctx, rule: str) -> None:
             ctx.check(up or neg, rule, fn, node, f"{fn.short} :: {norm(node)[:50]}", f"`{norm(node)[:60]}` rounds a bit size that need not be a multiple of 8 DOWN to octets: "
                       "one octet is lost for P-521 and for RSA moduli of 2047, 1025 ... bits", "(bits + 7) // 8", construct=f"octet length rounded down in {fn.short}")
     ctx.count(rule, n, 3, "bits -> octets conversions of curve / modulus / integer sizes")
+
+
+def built_lists(fn: FunctionInfo) -> List[Dict[str, object]]:
+    """lists a function builds element by element, whatever the spelling: `T = [E for v in IT if c]` and `T = []; for v in IT: [if c:] T.append(E)`.
+    Each entry: {"name": T, "elt": E, "iter": IT, "var": text of v, "ifs": [c...], "node": the comprehension / loop}.  A loop only counts when every
+    iteration that passes its (plain `if` without else) conditions appends exactly once and nothing else in the function appends to / rebinds T."""
+    out: List[Dict[str, object]] = []
+    for n in fn_nodes(fn):
+        if isinstance(n, ast.Assign) and len(n.targets) == 1 and isinstance(n.targets[0], ast.Name) and isinstance(n.value, ast.ListComp) and len(n.value.generators) == 1:
+            g = n.value.generators[0]
+            out.append({"name": n.targets[0].id, "elt": n.value.elt, "iter": g.iter, "var": norm(g.target), "ifs": list(g.ifs), "node": n.value})
+        elif isinstance(n, ast.For) and not n.orelse:
+            body = list(n.body)
+            ifs = []
+            while len(body) == 1 and isinstance(body[0], ast.If) and not body[0].orelse:
+                ifs.append(body[0].test)
+                body = list(body[0].body)
+            if len(body) == 1 and isinstance(body[0], ast.Expr) and isinstance(body[0].value, ast.Call) and isinstance(body[0].value.func, ast.Attribute) \
+                    and body[0].value.func.attr == "append" and isinstance(body[0].value.func.value, ast.Name) and len(body[0].value.args) == 1:
+                nm = body[0].value.func.value.id
+                inits = [a for a in fn_nodes(fn) if isinstance(a, ast.Assign) and any(isinstance(t_, ast.Name) and t_.id == nm for t_ in a.targets)]
+                others = [c for c in fn_nodes(fn) if isinstance(c, ast.Call) and isinstance(c.func, ast.Attribute) and isinstance(c.func.value, ast.Name) and c.func.value.id == nm
+                          and c.func.attr in ("append", "extend", "insert", "pop", "remove", "clear") and c is not body[0].value]
+                if len(inits) == 1 and isinstance(inits[0].value, ast.List) and not inits[0].value.elts and not others:
+                    out.append({"name": nm, "elt": body[0].value.args[0], "iter": n.iter, "var": norm(n.target), "ifs": ifs, "node": n})
+    return out
